@@ -1,5 +1,7 @@
 import BlockCiphers.Api
 import BlockCiphers.Models.Xtea
+import BlockCiphers.Models.Rc5
+import BlockCiphers.Models.Speck
 /-
 All cipher models known to the driver.  One `Models/<Cipher>.lean` per crate contributes `models`
 (generic registry entries) and `specials` (operation lines that are specific to the crate).
@@ -7,10 +9,10 @@ All cipher models known to the driver.  One `Models/<Cipher>.lean` per crate con
 namespace BC
 
 def allCiphers : List CipherModel :=
-  Models.Xtea.models
+  Models.Xtea.models ++ Models.Rc5.models ++ Models.Speck.models
 
 def allSpecials : List Special :=
-  Models.Xtea.specials
+  Models.Xtea.specials ++ Models.Rc5.specials ++ Models.Speck.specials
 
 def findCipher (n : String) : Option CipherModel := allCiphers.find? (fun c => c.name == n)
 def findSpecial (n : String) : Option (List String → String) :=
